@@ -79,12 +79,26 @@ var c = &collector{
 }
 
 // Main is called from each property package's TestMain.
-func Main(m *testing.M, property string) {
+func Main(m *testing.M, property string) { MainFunc(m, property, nil) }
+
+// MainFunc is Main with a hook that may adjust the exit code (used by the race
+// check, where `testing` fails a test for every detector report, known or not).
+func MainFunc(m *testing.M, property string, adjust func(code int) int) {
 	c.Property = property
 	c.loadFindings()
 	code := m.Run()
+	if adjust != nil {
+		code = adjust(code)
+	}
 	Flush()
 	os.Exit(code)
+}
+
+// ViolationCount is the number of oracle failures recorded by Fail so far.
+func ViolationCount() int {
+	c.mu.Lock()
+	defer c.mu.Unlock()
+	return len(c.Violations)
 }
 
 func (c *collector) loadFindings() {
